@@ -386,6 +386,9 @@ func (g *gen) runArgv() (argv []string, marks []bool, stdin string) {
 			pos = append(pos, unit{toks: []string{g.pickFile()}, positional: true})
 		}
 	}
+	if hasExprFile && g.chance(20) {
+		addFlag(g.pick([]string{"-i", "--repl"})) // --repl x -f x number of files
+	}
 	// free order: flags shuffled, positionals keep their relative order
 	for i := len(flags) - 1; i > 0; i-- {
 		j := g.r.Intn(i + 1)
